@@ -288,6 +288,60 @@ def nrt_scenario(ctx, j):
     return {'job': j, 'entries': len(lst)}
 
 
+def nrt_reuse_scenario(ctx, j):
+    """the same (doubly) nested bundle list object is sent twice at different logical times: every level is stamped
+    relative to ITS send instant both times, and the caller's list is left as it was"""
+    from sc3.base import main as _m, clock as clk, stream as stm, netaddr as nad
+    main = _m.main
+    rec = {'mode': 'nrt', 'job': dict(j)}
+
+    def data(sub):
+        return {'key': f'c07:nrt-reuse:{sub}', 'replay': dict(rec, sub=sub)}
+    L = ctx.real('L', 0, 1000)
+    L2 = ctx.real('L2', 0, 1000)
+    L3 = ctx.real('L3', 0, 1000)
+    ctx.assume(z3.And(L.e <= L2.e, L2.e <= L3.e))          # a nested bundle may not precede its parent
+    d = [ctx.real('d0', 0, 1000), ctx.real('d1', 0, 1000)]
+    deep = j.get('depth', 2) == 2
+    nested = [L2, ['/c', 3], [L3, ['/d', 4]]] if deep else [L2, ['/c', 3]]
+    times = []
+    with osc_shims():
+        main.reset()
+        try:
+            addr = nad.NetAddr('127.0.0.1', 57110)
+
+            def body():
+                for k in range(2):
+                    yield d[k]
+                    times.append(clk.SystemClock.seconds)
+                    addr.send_bundle(L, [f'/a{k}', k], nested)
+            stm.Routine(body).play(clk.SystemClock)
+            score = main.process(0)
+            lst = [e for e in score.list if e[1][0] in ('/a0', '/a1')]
+        finally:
+            main.reset()
+    # the caller's object is untouched
+    ok = nested[0] is L2 and nested[1] == ['/c', 3] and (not deep or (nested[2][0] is L3 and nested[2][1] == ['/d', 4]))
+    if not ok:
+        raise Violation(f'sending a nested bundle rewrote the caller\'s list: {nested!r}', ctx.model(), data('mutated'))
+    if len(lst) != 2:
+        raise Violation(f'{len(lst)} bundles listed for 2 sends', None, data('count'))
+    by = {e[1][0]: e for e in lst}
+    for k in range(2):
+        e = by.get(f'/a{k}')
+        if e is None or len(e) != 3 or not isinstance(e[2], list):
+            raise Violation(f'send {k} is not listed with its nested bundle: {e!r}', None, data('shape'))
+        t = R(times[k])
+        ctx.prove(R(e[0]) == t + R(L), f'send {k}: bundle not listed at logical time + latency', data('time'))
+        ctx.prove(R(e[2][0]) == t + R(L2), f'send {k}: nested bundle is not stamped relative to this send instant',
+                  data('nested-time'))
+        if deep:
+            ctx.prove(R(e[2][2][0]) == t + R(L3), f'send {k}: inner nested bundle is not stamped relative to this send '
+                      'instant (the list object was sent before)', data('nested-time'))
+    ctx.note('nrt-reuse')
+    return {'job': j}
+
+
 def main_end_time(j, d):
     """logical time at which process() leaves the main thread: the last executed instant"""
     acc = 0
@@ -302,6 +356,8 @@ def job(j):
         h = law_roundtrip
     elif j['mode'] == 'rt':
         h = lambda c: rt_scenario(c, j)      # noqa
+    elif j.get('reuse'):
+        h = lambda c: nrt_reuse_scenario(c, j)     # noqa
     else:
         h = lambda c: nrt_scenario(c, j)     # noqa
     st = explore(h, max_paths=20000, timeout_ms=20000, stop_on_violation=True)
@@ -324,9 +380,46 @@ def replay(rec):
         x = g('x', 1.5)
         y = clk.SystemClock.osc_to_elapsed_time(clk.SystemClock.elapsed_time_to_osc(x))
         return None if 0 <= x - y < 2 ** -31 else f'round trip of {x} gives {y}'
+    if j.get('reuse'):
+        return _replay_reuse(j, g)
     if j['mode'] == 'nrt':
         return _replay_nrt(j, g)
     return _replay_rt(j, g)
+
+
+def _replay_reuse(j, g):
+    from sc3.base import main as _m, clock as clk, stream as stm, netaddr as nad
+    main = _m.main
+    L, L2, L3 = g('L', 0.25), g('L2', 0.5), g('L3', 0.75)
+    d = [g('d0', 1.0), g('d1', 1.0)]
+    if d[1] == 0:
+        d[1] = 1.0          # the defect needs two different send instants; any positive gap shows it
+    deep = j.get('depth', 2) == 2
+    nested = [L2, ['/c', 3], [L3, ['/d', 4]]] if deep else [L2, ['/c', 3]]
+    import copy
+    before = copy.deepcopy(nested)
+    times = []
+    main.reset()
+    try:
+        addr = nad.NetAddr('127.0.0.1', 57110)
+
+        def body():
+            for k in range(2):
+                yield d[k]
+                times.append(clk.SystemClock.seconds)
+                addr.send_bundle(L, [f'/a{k}', k], nested)
+        stm.Routine(body).play(clk.SystemClock)
+        lst = [e for e in main.process(0).list if e[1][0] in ('/a0', '/a1')]
+    finally:
+        main.reset()
+    if nested != before:
+        return f'sending a nested bundle rewrote the caller\'s list: {before} -> {nested}'
+    for k, e in enumerate(lst):
+        want = [times[k] + L, times[k] + L2] + ([times[k] + L3] if deep else [])
+        got = [e[0], e[2][0]] + ([e[2][2][0]] if deep else [])
+        if any(abs(a - b) > 1e-9 for a, b in zip(want, got)):
+            return f'send {k} at {times[k]}: listed times {got}, expected {want}'
+    return None
 
 
 def _replay_nrt(j, g):
@@ -482,6 +575,7 @@ def main(tier, seed):
             for lats in dict.fromkeys(lat_sets):
                 nrt.append(dict(mode='nrt', sends=list(sends), lats=list(lats), msg=0))
             nrt.append(dict(mode='nrt', sends=list(sends), lats=['pos'] * n, msg=1))
+    nrt += [dict(mode='nrt', reuse=1, depth=1), dict(mode='nrt', reuse=1, depth=2)]
     for r in run_jobs('vf.props.c07', 'job', rt, 'rt'):
         chk.add('rt', r)
     for r in run_jobs('vf.props.c07', 'job', nrt, 'nrt'):
@@ -489,7 +583,7 @@ def main(tier, seed):
     chk.require_notes('rt', ['roundtrip', 'nested-refused', 'rt:bundle:routine:pos', 'rt:bundle:outside:pos',
                              'rt:completion:routine:pos', 'rt:nested:routine:pos', 'rt:bundle:routine:none',
                              'rt:bundle:routine:neg', 'rt:msg:routine:pos'])
-    chk.require_notes('nrt', ['nrt'])
+    chk.require_notes('nrt', ['nrt', 'nrt-reuse'])
     chk.bounds = {'rt': 'one send (bundle, nested bundle, message, message with completion-bundle blob) with symbolic '
                         'latencies from a routine step under arbitrary jitter or from the main thread',
                   'nrt': f'1..{nmax} sends from a routine / from outside, latency kinds pos/none/negative/zero, symbolic '
